@@ -121,6 +121,9 @@ type scenario struct {
 	Args     []any
 	TS       time.Time
 	AsLogger bool // attributes attached to the logger (With) instead of the call
+	Twin     bool // the same record is printed in the other formats first (vlib.DisturbTwin)
+	DupFirst bool // a record with a repeated key among loose pairs is printed first (vlib.DisturbDupKeys)
+	Twice    bool // with AsLogger: the logger prints the record twice, the second one is judged (its attributes are long-lived objects)
 }
 
 func here() uintptr {
@@ -208,6 +211,12 @@ func run(t vlib.TB, test string, sc scenario, attrsForThru slog.Attrs) {
 		slog.AddKnownPathMapping(filepath.Dir(cwd), sc.PathRepl)
 	}
 	vlib.Disturb(sc.Disturb)
+	if sc.DupFirst {
+		vlib.DisturbDupKeys("logfmt")
+	}
+	if sc.Twin && !sc.Thru {
+		vlib.DisturbTwin("logfmt", sc.Sev, sc.Msg, sc.Args)
+	}
 	func() {
 		defer func() {
 			if p := recover(); p != nil {
@@ -222,6 +231,10 @@ func run(t vlib.TB, test string, sc scenario, attrsForThru slog.Attrs) {
 		case sc.AsLogger:
 			lg.Set(sc.Args...)
 			lg.LogAttrs(context.Background(), sc.Sev, sc.Msg)
+			if sc.Twice {
+				log.Reset()
+				lg.LogAttrs(context.Background(), sc.Sev, sc.Msg)
+			}
 		default:
 			issued := false
 			for _, ep := range vlib.EntryPoints {
@@ -305,6 +318,9 @@ func genScenario(t *rapid.T) (scenario, slog.Attrs) {
 		}
 	}
 	sc.How = rapid.SampledFrom([]int{0, 0, 1, 2, 3}).Draw(t, "howFormatIsSet")
+	sc.Twin = rapid.IntRange(0, 3).Draw(t, "sameRecordInTheOtherFormatsFirst") == 0
+	sc.DupFirst = rapid.IntRange(0, 5).Draw(t, "repeatedKeyRecordFirst") == 0
+	sc.Twice = rapid.Bool().Draw(t, "loggerAttributesPrintedTwice")
 	if sc.Sev == custTitled {
 		sc.Title = rapid.SampledFrom([]string{"", "x\" msg=\"forged", "two\nlines", "cr\rlf\n", "back\\slash", "tab\there", "sp ace", "eq=sign", "\u00fcml\u00e4ut", "trailing\\", "esc\x1b[31m"}).Draw(t, "levelTitle")
 	}
